@@ -33,9 +33,12 @@ static inline void maybe_delay(void)
 		if ((x >> 20) & 1) sched_yield(); else usleep((x >> 24) % 200);
 	}
 }
-int __wrap_pthread_mutex_lock(pthread_mutex_t *m) { maybe_delay(); int r = __real_pthread_mutex_lock(m); maybe_delay(); return r; }
-int __wrap_pthread_mutex_unlock(pthread_mutex_t *m) { maybe_delay(); int r = __real_pthread_mutex_unlock(m); maybe_delay(); return r; }
-int __wrap_pthread_cond_wait(pthread_cond_t *c, pthread_mutex_t *m) { maybe_delay(); int r = __real_pthread_cond_wait(c, m); maybe_delay(); return r; }
-int __wrap_pthread_cond_signal(pthread_cond_t *c) { maybe_delay(); int r = __real_pthread_cond_signal(c); maybe_delay(); return r; }
+/* after the injected delay and before the real call, the object is read from instrumented code: a call on a freed mutex / condition variable
+ * (glibc itself is not instrumented) becomes an ASan / TSan report with the caller's stack */
+static inline void dl_touch(const volatile void *obj, size_t n) { const volatile char *p = obj; (void)p[0]; (void)p[n - 1]; }
+int __wrap_pthread_mutex_lock(pthread_mutex_t *m) { maybe_delay(); dl_touch(m, sizeof *m); int r = __real_pthread_mutex_lock(m); maybe_delay(); return r; }
+int __wrap_pthread_mutex_unlock(pthread_mutex_t *m) { maybe_delay(); dl_touch(m, sizeof *m); int r = __real_pthread_mutex_unlock(m); maybe_delay(); return r; }
+int __wrap_pthread_cond_wait(pthread_cond_t *c, pthread_mutex_t *m) { maybe_delay(); dl_touch(c, sizeof *c); int r = __real_pthread_cond_wait(c, m); maybe_delay(); return r; }
+int __wrap_pthread_cond_signal(pthread_cond_t *c) { maybe_delay(); dl_touch(c, sizeof *c); int r = __real_pthread_cond_signal(c); maybe_delay(); return r; }
 #define DELAY_WRAPS "pthread_mutex_lock", "pthread_mutex_unlock", "pthread_cond_wait", "pthread_cond_signal"
 #endif
